@@ -69,6 +69,15 @@ func corrC07(c *corrCtx) {
 		}
 	}
 	c07Huge(c)
+	// the same files (whole and truncated) through sources of every dynamic type
+	var typed []seedFile
+	for _, s := range seeds {
+		typed = append(typed, s)
+		if len(s.data) > 20 {
+			typed = append(typed, seedFile{s.name + "/cut", s.format, s.data[:len(s.data)*2/3], 0})
+		}
+	}
+	typedSourceCases(c, "C07", append(typed, seedFiles(r, false)...))
 	// larger files: structural boundaries ± 1
 	big := append(seedFiles(r, false), realFiles()...)
 	for _, s := range big {
@@ -288,6 +297,7 @@ func corrC08(c *corrCtx) {
 			}
 		}
 	}
+	typedSourceCases(c, "C08", append(seedFiles(r, true), seedFiles(r, false)...))
 	// far into a stream: the structure the loader still needs ends shortly after a round number of MiB
 	// of ancillary data (any limit on how much is read or recorded would sit at such a place); too large
 	// for the line protocol, so only the property's own oracle runs: every schedule gives the same answer
@@ -335,6 +345,7 @@ func corrC19(c *corrCtx) {
 	inputs = append(inputs, seedFiles(r, false)...)
 	inputs = append(inputs, junkFiles(r)...)
 	inputs = append(inputs, realFiles()...)
+	typedSourceCases(c, "C19", inputs)
 	n := 40
 	if c.thorough() {
 		n = 600
